@@ -21,9 +21,9 @@
 //! Not judged: which demanded addresses are dropped, order, de-duplication, DNS components that
 //! accompany an IP component (counted as `outputs_with_dns_component`).
 //!
-//! Part B (history half: at most one dial-back per peer, per-peer and global throttles, judged on
-//! the `ToSwarm::Dial`s of a real server inside the network simulator) is added by `part_b` once the
-//! simulator exists; it shares `Check` with part A.
+//! Part B (history half: at most one dial-back per peer, per-peer and global throttles, judged on the
+//! events and the transport dial log of a real server inside the network simulator) lives in `c50b.rs`
+//! and shares this `Check`: `./check C50` runs both halves and writes one evidence file.
 use std::{net::IpAddr, sync::OnceLock};
 
 use libp2p_autonat::v1::verif::filter_valid_addrs;
@@ -49,7 +49,7 @@ fn observed_ip(observed: &Multiaddr) -> Option<IpAddr> {
 }
 
 /// Judge one output address; returns (signature, text) of the first broken clause.
-fn judge(out: &Multiaddr, requester: &PeerId, obs: Option<IpAddr>) -> Option<(String, String)> {
+pub(crate) fn judge(out: &Multiaddr, requester: &PeerId, obs: Option<IpAddr>) -> Option<(String, String)> {
     let comps: Vec<Protocol<'_>> = out.iter().collect();
     let Some(obs) = obs else {
         return Some(("output-without-observed-ip".into(), format!("{out} would be dialed although no IP was observed for the requester")));
@@ -294,8 +294,10 @@ fn part_a_random(check: &Check, args: &Args, n: u64) {
     });
 }
 
-/// Part B placeholder: dial-back concurrency and throttling on a real server (needs the simulator).
-fn part_b(_check: &Check, _args: &Args) {}
+/// Part B: dial-back concurrency and throttling on a real server in the network simulator.
+fn part_b(check: &Check, args: &Args) {
+    crate::c50b::part_b(check, args);
+}
 
 pub fn run(args: &Args) -> i32 {
     let check = Check::new(
@@ -304,15 +306,18 @@ pub fn run(args: &Args) -> i32 {
         "part A: every component sequence of length 1..=L over a 10-letter alphabet as a single demanded address x 4 observed \
          addresses (exhaustive), plus PRNG lists of 1..8 demanded addresses (1-3 IP components, dns, relay hop, own/foreign /p2p in \
          middle or end, duplicates) x observed address; non-trivial = the filter lets at least one address through; distinct by \
-         (observed, demanded list) bytes",
+         (observed, demanded list) bytes. part B: PRNG histories of a real autonat v1 server (throttle global 1-6, per peer 1-3) with \
+         2-4 raw clients sending 4-16 batches of 1-3 concurrent hand-encoded DialRequests, dial-backs succeeding, refused or held \
+         pending and resolved later; non-trivial = a dial-back was accepted, a request was refused and the server dialed; distinct by \
+         (request sequence, interleaving)",
     );
     let tiny = util::tiny(args);
     let max_len = if tiny { 2 } else { args.tier.pick(4, 5) };
+    part_b(&check, args); // first: it keeps at most 2 of the 5 evidence samples
     part_a_fixed(&check);
     part_a_exhaustive(&check, max_len);
     part_a_random(&check, args, if tiny { 20 } else { args.tier.pick(100_000, 2_000_000) });
-    part_b(&check, args);
     check.note("exhaustive", json!(format!("single demanded address: all sequences up to length {max_len} over the alphabet; lists: PRNG")));
-    check.note("parts", json!({"A_input_half": "implemented", "B_history_half": "pending network simulator"}));
+    check.note("parts", json!({"A_input_half": "filter_valid_addrs facade (c50.rs)", "B_history_half": "real server in vnet, raw clients (c50b.rs)"}));
     check.finish()
 }
